@@ -385,20 +385,23 @@ class BaseParser:
         context: RuntimeContext,
         as_attname: bool = None,
         excluded_keys: List[str] = None,
+        params_num: int = None,
     ):
         options = context.options
+        if params_num is None:
+            params_num = len(data)
         if options.max_params is not None:
-            if len(data) > options.max_params:
+            if params_num > options.max_params:
                 context.handle_error(
                     exc.ParamsExceedError(
-                        max_params=options.max_params, params_num=len(data)
+                        max_params=options.max_params, params_num=params_num
                     )
                 )
         if options.min_params:
-            if len(data) < options.min_params:
+            if params_num < options.min_params:
                 context.handle_error(
                     exc.ParamsLackError(
-                        min_params=options.min_params, params_num=len(data)
+                        min_params=options.min_params, params_num=params_num
                     )
                 )
         dfs = (
